@@ -17,6 +17,7 @@ CONSTANTS
   IdxSlack,              \* indexed frame() may target 0 .. Len(frm)+IdxSlack-1
   UserParams,            \* sequence of [g, p] records: the SetParam alphabet (besides the two rates)
   LockNames,             \* group names lockGroup/unlockGroup are tried with
+  Files,                 \* sequence of byte sequences that may be loaded (spec-generated files); <<>> switches loading off
   WithReload,            \* TRUE: save + load (through the file format model) is an action
   Lookups,               \* TRUE: the read-only look-ups of C11 are explored in every state
   CallerIds,             \* identities of caller-side frame objects (C08); {} switches them off
@@ -386,6 +387,13 @@ Reload ==
   /\ Done(IF r.out = "ok" THEN r.obj ELSE obj, [op |-> "Reload", path |-> ReloadPath], r.out, <<>>)
   /\ UNCHANGED callers
 
+\* constructing an object from a given file (C02): the object becomes ReaderModel(bytes)
+LoadBytes(i) ==
+  LET b == Files[i]  r == ReaderModel(b) IN
+  /\ ReaderDefined(b) /\ r.out \in {"ok", "ios_failure", "invalid_argument"}
+  /\ Done(IF r.out = "ok" THEN r.obj ELSE obj, [op |-> "LoadBytes", path |-> "gen.c3d", file |-> i, bytes |-> b], r.out, <<>>)
+  /\ UNCHANGED callers
+
 (* ---------- the state machine ---------- *)
 Init ==
   /\ obj = DefaultObject
@@ -410,6 +418,7 @@ Next ==
   \/ \E f \in 1..MaxFrames, t \in Tags : CallerIds # {} /\ EditStored(f, t)
   \/ Lookups /\ \E q \in Queries(obj) : Get(q)
   \/ WithReload /\ Reload
+  \/ \E i \in 1..Len(Files) : LoadBytes(i)
 
 Spec == Init /\ [][Next]_vars
 
